@@ -14,6 +14,7 @@ RULES = {
     "R-01.2": "_validate_labels raises LabelTooLong exactly for len(label) >= 64 and NameTooLong exactly for sum(len+1) >= 256",
     "R-01.3": "wire decoding: every seek target is strictly below every earlier pointer and the name's start; literal labels are < 64 octets; other label types raise; the loop consumes input on every iteration",
     "R-01.4": "compression table: offsets stored are <= 0x3FFF and taken before the label is written, keyed by the same suffix that is looked up; the root is never inserted; pointers are 0xC000 + stored offset",
+    "R-01.11": "a name token is unescaped exactly once: Tokenizer.get_name / as_name hand the raw token text to dns.name.from_text (which runs the escape state machine) and never call Token.unescape() first - unescaping twice turns `\\.` into a label separator and `\\@` into the origin",
     "R-01.10": "the text escape state machine (from_text and from_unicode alike) starts every escape from a clean state: the branch that enters the escaping state zeroes the digit counter and the accumulated value there, not at label boundaries - otherwise a second escape in one label is misread or refused",
     "R-01.9": "Name.to_wire derelativizes in two arms (bytes returned, file written); each arm that appends the origin's labels bounds the result by 255 octets: the file arm builds Name(labels) (validated), the bytes arm raises NameTooLong when len(out) > 255",
     "R-01.8": "relativization and derelativization against an origin keep every other label: Name.relativize strips exactly len(origin) labels (C06 R-06.4 relativize/choose and R-06.6 negative-zero slices adopted) - the text round trip under an origin rests on it",
@@ -245,6 +246,43 @@ def run(model, rep, tier):
     rep.check(not leak, "R-01.5", ef.qualname, where(ef, ef.node),
               f"all {len(special)} reader-special octets are escaped (raw range {hex(raw_lo)}..{hex(raw_hi)} minus {esc!r})",
               f"octets {[chr(c) if c < 0x7f else hex(c) for c in leak]} are written raw but mean something to a reader (name/zone-file text does not parse back to the same label)", stmt="special-subset-escaped")
+    # every other way out of _escapify (a "fast path" that returns the label unescaped) may only let octets through that are neither special to a reader nor outside the raw range
+    rets = [r for r in ast.walk(ef.node) if isinstance(r, ast.Return) and r.value is not None]
+    accs = {t_.id for x in ast.walk(ef.node) if isinstance(x, ast.AugAssign) and isinstance(x.target, ast.Name) for t_ in [x.target]}
+    for r in rets:
+        if isinstance(r.value, ast.Name) and r.value.id in accs:
+            continue
+        guard = next((g for g in ast.walk(ef.node) if isinstance(g, ast.If) and any(x is r for b in g.body for x in ast.walk(b))
+                      and isinstance(g.test, ast.Call) and isinstance(g.test.func, ast.Attribute) and g.test.func.attr == "fullmatch" and isinstance(g.test.func.value, ast.Name)), None)
+        allowed = None
+        if guard is not None and guard.test.func.value.id in nm.assigns:
+            v = nm.assigns[guard.test.func.value.id]
+            if isinstance(v, ast.Call) and src(v.func) == "re.compile" and v.args and isinstance(v.args[0], ast.Constant) and isinstance(v.args[0].value, bytes):
+                import re as _re
+                try:
+                    parsed = _re._parser.parse(v.args[0].value)
+                    allowed = set()
+                    okshape = len(parsed) == 1 and str(parsed[0][0]) == "MAX_REPEAT"
+                    inner = parsed[0][1][2] if okshape else []
+                    okshape = okshape and len(inner) == 1 and str(inner[0][0]) == "IN"
+                    for (k_, a_) in (inner[0][1] if okshape else []):
+                        if str(k_) == "LITERAL":
+                            allowed.add(a_)
+                        elif str(k_) == "RANGE":
+                            allowed |= set(range(a_[0], a_[1] + 1))
+                        else:
+                            okshape = False
+                    if not okshape:
+                        allowed = None
+                except Exception:
+                    allowed = None
+        if allowed is None:
+            rep.blind("R-01.5", ef.qualname, where(ef, r), f"`{src(r)[:50]}` leaves _escapify without going through the per-octet loop and its guard is not a module-level `[class]+` bytes regex", stmt="fast-path")
+        else:
+            leak2 = sorted(c for c in allowed if c in special or c in set(esc) or not (raw_lo <= c <= raw_hi))
+            rep.check(not leak2, "R-01.5", ef.qualname, where(ef, r), f"the fast path lets only {len(allowed)} plain octets through",
+                      f"the fast path returns the label unescaped when it matches a class containing {[chr(c) for c in leak2]}: those octets need escaping (text does not parse back to the same labels, "
+                      "e.g. a backslash inside `A-z`)", stmt="fast-path")
     # str mode
     specials_text = {chr(c) for c in (set(reader_lits) | delims | ({ord('$')} if dollar else set())) if c > 0x20}
     leak_t = sorted(specials_text - set(esc_text))
@@ -334,6 +372,15 @@ def run(model, rep, tier):
                   f"the branch that enters the escaping state does not zero {missing}: after one complete \\DDD escape the next escape in the same label starts with stale digits "
                   "(it is refused with BadEscape or decoded to the wrong octet), so text the library itself produced does not parse back", stmt="escape-reset")
     rep.floor("R-01.10", n_sm, 2)
+    # ---------------------------------------------------------------- R-01.11
+    n_np = 0
+    for qn in ("dns.tokenizer.Tokenizer.get_name", "dns.tokenizer.Tokenizer.as_name"):
+        fn_ = model.func(qn)
+        n_np += 1
+        un = [c for c in ast.walk(fn_.node) if isinstance(c, ast.Call) and isinstance(c.func, ast.Attribute) and c.func.attr.startswith("unescape")]
+        rep.check(not un, "R-01.11", qn, where(fn_, un[0] if un else fn_.node), "the token reaches dns.name.from_text unescaped",
+                  f"`{src(un[0])[:50]}` unescapes the token before dns.name.from_text runs its own escape state machine: escapes are interpreted twice" if un else "", stmt="single-unescape")
+    rep.floor("R-01.11", n_np, 2)
     rep.meta["explanation"] = (
         "Must-pass-through and who-may-write rules for the validation gate, normalised-bound rules for the 63/255 limits and the compression offset, a well-founded-measure argument for "
         "wire decoding (pointer strictly decreasing, loop consumes), and set comparison between the octets readers treat specially and the octets the writer escapes (both folded from the source). "
@@ -341,6 +388,14 @@ def run(model, rep, tier):
 
 
 WITNESSES = [
+    {"id": "c01-escapify-fast-path-lets-backslash-through", "rule": "R-01.5", "file": "dns/name.py", "expect": "fires",
+     "edits": [{"file": "dns/name.py", "old": "_escaped_text = '\"().;\\\\@$'\n", "new": "_escaped_text = '\"().;\\\\@$'\nimport re\n_plain_label = re.compile(rb\"[0-9A-z_*-]+\")\n"},
+               {"file": "dns/name.py", "old": "    if isinstance(label, bytes):\n        # Ordinary DNS label mode.", "new": "    if isinstance(label, bytes):\n        if _plain_label.fullmatch(label):\n            return label.decode(\"ascii\")\n        # Ordinary DNS label mode."}]},
+    {"id": "c01-twin-escapify-fast-path-safe-class", "rule": "R-01.5", "file": "dns/name.py", "expect": "silent",
+     "edits": [{"file": "dns/name.py", "old": "_escaped_text = '\"().;\\\\@$'\n", "new": "_escaped_text = '\"().;\\\\@$'\nimport re\n_plain_label = re.compile(rb\"[0-9A-Za-z_*-]+\")\n"},
+               {"file": "dns/name.py", "old": "    if isinstance(label, bytes):\n        # Ordinary DNS label mode.", "new": "    if isinstance(label, bytes):\n        if _plain_label.fullmatch(label):\n            return label.decode(\"ascii\")\n        # Ordinary DNS label mode."}]},
+    {"id": "c01-get-name-unescapes-first", "rule": "R-01.11", "file": "dns/tokenizer.py", "expect": "fires",
+     "old": "        token = self.get()\n        return self.as_name(token, origin, relativize, relativize_to)", "new": "        token = self.get().unescape()\n        return self.as_name(token, origin, relativize, relativize_to)"},
     {"id": "c01-from-unicode-escape-reset-at-label-boundary", "rule": "R-01.10", "file": "dns/name.py", "expect": "fires",
      "old": "                labels.append(idna_codec.encode(label))\n                label = \"\"\n            elif c == \"\\\\\":\n                escaping = True\n                edigits = 0\n                total = 0\n",
      "new": "                labels.append(idna_codec.encode(label))\n                label = \"\"\n                edigits = 0\n                total = 0\n            elif c == \"\\\\\":\n                escaping = True\n"},
